@@ -12,5 +12,5 @@ Out(res) == [ok |-> res.ok, n |-> res.n, sel |-> res.sel, rows |-> res.rows, pro
 Emit == done =>
           PrintT(<<"T", ToJson([kind |-> St.kind, ph |-> St.ph, set |-> St.set, wh |-> St.wh, nslots |-> St.nslots, nrows |-> St.nrows,
                                 form |-> form, sv |-> Sv, ps |-> Ps,
-                                once |-> Out(Once), twice |-> Out(Twice)])>>)
+                                sv2 |-> Sv2, ps2 |-> Ps2, once |-> Out(Once), twice |-> Out(Twice), other |-> Out(Other)])>>)
 =============================================================================
